@@ -215,10 +215,19 @@ func c12BundledLines() []string {
 
 var c12Special = []string{"$", "|", "||", "^", "*", "#", "##", "#@#", "$$", "@@", "/", "\\", ",", "=", "~", "!", " ", "\t", "[", "(", "{", "?", "+", ".", "domain=", "$domain=", "badfilter", "client=", "'", "\"", "\x00", "\xff", "dnsrewrite=", ";"}
 
+// URLs whose lower-cased form has another byte length (Kelvin sign, Ohm sign,
+// capital sharp s, dotted capital I) and other non-ASCII text.
+var c12OddURLs = []string{"http://example.org/\u212aelvin/ads", "http://example.org/\u2126\u2126\u2126\u2126\u2126\u2126\u2126", "https://a.com/\u1e9e?x=\u212b",
+	"http://example.org/\u0130\u0130\u0130\u0130\u0130\u0130", "http://пример.рф/РЕКЛАМА", "http://example.org/\xff\xfe\x80", "http://example.org/" + strings.Repeat("\u212a", 30)}
+
 func c12Reqs(t *rapid.T) []Q {
 	var out []Q
 	for i := rapid.IntRange(2, 5).Draw(t, "nreq"); i > 0; i-- {
-		out = append(out, genQ(t, nil))
+		q := genQ(t, nil)
+		if !q.Host && chance(t, "odd-url", 4) {
+			q.URL = pick(t, "odd", c12OddURLs)
+		}
+		out = append(out, q)
 	}
 	return out
 }
@@ -349,6 +358,9 @@ func genC12Inert(t *rapid.T) c12Case {
 		} else {
 			c.Reqs = append(c.Reqs, genQ(t, nil))
 		}
+	}
+	if chance(t, "odd-url-req", 3) {
+		c.Reqs = append(c.Reqs, Q{URL: pick(t, "odd", c12OddURLs), Src: "http://example.org/", Typ: "script"})
 	}
 	return c
 }
